@@ -10,6 +10,8 @@ src: conf.c
 enforce: spifconf_register_context_state
 backend: z3,sat
 timeout: 150
+native: register
+native_includes: conf.c
 */
 /*@unit
 name: register_fstate
@@ -18,6 +20,8 @@ src: conf.c
 enforce: spifconf_register_fstate
 backend: z3,sat
 timeout: 150
+native: register
+native_includes: conf.c
 */
 /*@unit
 name: register_context
@@ -26,6 +30,8 @@ src: conf.c
 enforce: spifconf_register_context
 backend: z3,sat
 timeout: 150
+native: register
+native_includes: conf.c
 */
 /*@unit
 name: register_builtin
@@ -34,6 +40,8 @@ src: conf.c
 enforce: spifconf_register_builtin
 backend: z3,sat
 timeout: 150
+native: register
+native_includes: conf.c
 */
 #include "vprelude.h"
 #include "src/conf.c"
